@@ -41,6 +41,11 @@ try:
     def place():
         # the agent's commands refer to its _out directory relative to the worktree root
         shutil.copytree(os.path.dirname(os.path.abspath(src)), os.path.join(wt, "_out"), dirs_exist_ok=True)
+        # ... or say only which package the demonstration has to be copied into
+        if copy_to and copy_to != "standalone" and os.path.isdir(os.path.join(wt, copy_to)):
+            for f in demos:
+                if os.path.isfile(os.path.join(src, f)) and f.endswith(".go"):
+                    shutil.copy(os.path.join(src, f), os.path.join(wt, copy_to, f))
     place()
     run = run.replace("/tmp/mut-%s" % prop, wt)
     res["demo_cmd"] = run
